@@ -120,3 +120,36 @@ package cmd
 //@   at return 2 assert (code == consts.ReloadDone || code == consts.ReloadError || code == consts.ReloadBusy) && result0 == code && result2 == nil
 //@   loop 1
 //@     back code != consts.ReloadDone && code != consts.ReloadError && code != consts.ReloadBusy
+
+// C20 (a failed hand-off leaves nothing of the new generation behind): the rollback closes the prepared listener,
+// cancels the new generation's context and closes the staged control plane - each when present, all three on
+// the same pass.
+//@ func rollbackStagedReloadHandoff
+//@   anchorsonly
+//@   nonilcheck
+//@   dyncalls noeffect
+//@   modifies *
+//@   at call Listener).Close#1 assert a0 == handoff.newListener
+//@   at call dyn:CancelFunc#1 assert handoff.newCancel != nil
+//@   at call ControlPlane).Close#1 assert a0 == handoff.newControlPlane
+
+// the old generation always retires: connections are aborted at once on abort or without dialer overlap, and
+// otherwise after the drain wait unless it ended idle - the wait is bounded by maxDrain
+//@ func retireControlPlaneConnections
+//@   anchorsonly
+//@   nonilcheck
+//@   dyncalls noeffect
+//@   modifies *
+//@   ghostfn drained() int
+//@   at call waitForControlPlaneDrain#1 assert !abort && hasOverlap && a2 == c && a3 == maxDrain && a1 == ctx
+//@   at call waitForControlPlaneDrain#1 assume-after result == drained()
+//@   ensures abort || !hasOverlap ==> calls("AbortConnections") == 1 && calls("waitForControlPlaneDrain") == 0
+//@   ensures !abort && hasOverlap ==> calls("waitForControlPlaneDrain") == 1
+//@   ensures !abort && hasOverlap && (drained() == controlPlaneDrainCanceled || drained() == controlPlaneDrainTimeout) ==> calls("AbortConnections") == 1
+//@   ensures !abort && hasOverlap && drained() == controlPlaneDrainIdle ==> calls("AbortConnections") == 0
+
+// what is left of the retirement budget: never negative, nothing of a non-positive budget, the whole budget when no
+// start time is known
+//@ func remainingReloadRetirementBudget
+//@   dyncalls noeffect
+//@   ensures 0 <= result && (budget <= 0 ==> result == 0)
